@@ -1,3 +1,5 @@
+//go:build !skip_c01
+
 package main
 
 import (
@@ -13,73 +15,73 @@ import (
 func init() { register("C01", runC01) }
 
 const (
-	nmCanon = "a.example"
-	nmUpper = "A.Example"
-	nmUni   = "bücher.example"
-	nmPuny  = "xn--bcher-kva.example"
+	c01nmCanon = "a.example"
+	c01nmUpper = "A.Example"
+	c01nmUni   = "bücher.example"
+	c01nmPuny  = "xn--bcher-kva.example"
 )
 
 var c01Clauses = []string{"all", "S1-spans-disjoint", "S2-no-reissue-after-save", "S3-callers-agree", "S4-error-only-own-fault"}
 
 // c01Corpus: witnesses of the findings and hand-written schedules, run first on every run.
-func c01Corpus() []issCase {
-	th := func(prog, name string) issThread { return issThread{Prog: prog, Name: name} }
-	return []issCase{
+func c01Corpus() []c01issCase {
+	th := func(prog, name string) c01issThread { return c01issThread{Prog: prog, Name: name} }
+	return []c01issCase{
 		// (a) spelling-dependent keys: the second ObtainCertSync of a Unicode name issues again
-		{Threads: []issThread{th("obtain", nmUni), th("obtain", nmUni)}, Policy: "seq", Class: "spelling-unicode-reissue"},
+		{Threads: []c01issThread{th("obtain", c01nmUni), th("obtain", c01nmUni)}, Policy: "seq", Class: "spelling-unicode-reissue"},
 		// (a) Unicode vs punycode callers hold different locks: overlapping issue spans
-		{Threads: []issThread{th("obtain", nmUni), th("obtain", nmPuny)}, Policy: "seq", Pause: map[string]string{"0": "IssueEnd:"}, Class: "spelling-different-locks"},
+		{Threads: []c01issThread{th("obtain", c01nmUni), th("obtain", c01nmPuny)}, Policy: "seq", Pause: map[string]string{"0": "IssueEnd:"}, Class: "spelling-different-locks"},
 		// (a) raw lock key: upper vs lower case callers of ObtainCertSync
-		{Threads: []issThread{th("obtain", nmUpper), th("obtain", nmCanon)}, Policy: "seq", Pause: map[string]string{"0": "IssueEnd:"}, Class: "spelling-different-locks"},
+		{Threads: []c01issThread{th("obtain", c01nmUpper), th("obtain", c01nmCanon)}, Policy: "seq", Pause: map[string]string{"0": "IssueEnd:"}, Class: "spelling-different-locks"},
 		// (b) manageOne loads outside the issue lock, between the .key and .crt Stores of a fresh-key renewal
-		{Threads: []issThread{th("renew", nmCanon), th("manage", nmCanon)}, Seeds: []issSeed{{nmCanon, "due"}}, Policy: "seq",
+		{Threads: []c01issThread{th("renew", c01nmCanon), th("manage", c01nmCanon)}, Seeds: []c01issSeed{{c01nmCanon, "due"}}, Policy: "seq",
 			Pause: map[string]string{"0": "Store:.crt"}, AllowOverlap: true, Class: "manage-load-overlaps-save"},
 		// (c) storage fault inside the save of a fresh-key renewal: rollback deletes the new key, the old one is gone
-		{Threads: []issThread{th("renew", nmCanon), th("renew", nmCanon)}, Seeds: []issSeed{{nmCanon, "due"}}, Policy: "seq",
-			Faults: map[string]int{"0:Store:.crt": fErr}, AllowSaveFault: true, Class: "fault-inside-save"},
+		{Threads: []c01issThread{th("renew", c01nmCanon), th("renew", c01nmCanon)}, Seeds: []c01issSeed{{c01nmCanon, "due"}}, Policy: "seq",
+			Faults: map[string]int{"0:Store:.crt": c01fErr}, AllowSaveFault: true, Class: "fault-inside-save"},
 		// healthy scenarios
-		{Threads: []issThread{th("manage", nmCanon), th("manage", nmCanon)}, Policy: "rr", Class: "generic"},
+		{Threads: []c01issThread{th("manage", c01nmCanon), th("manage", c01nmCanon)}, Policy: "rr", Class: "generic"},
 		// ManageSync only lower-cases: Unicode and punycode spellings still use different locks and pre-check keys
-		{Threads: []issThread{th("manage", nmUni), th("manage", nmPuny), th("manage", "BÜCHER.example")}, Policy: "rr", Class: "spelling-different-locks"},
-		{Threads: []issThread{th("manage", nmPuny), th("manage", nmPuny), th("obtain", nmPuny)}, Policy: "rr", Class: "generic"},
-		{Threads: []issThread{th("manage", nmUpper), th("manage", nmCanon)}, Policy: "seq", Pause: map[string]string{"0": "IssueEnd:"}, Class: "generic"},
-		{Threads: []issThread{th("obtain", nmCanon), th("obtain", nmCanon), th("manage", nmCanon)}, Policy: "seq", Pause: map[string]string{"0": "IssueEnd:"}, Class: "generic"},
+		{Threads: []c01issThread{th("manage", c01nmUni), th("manage", c01nmPuny), th("manage", "BÜCHER.example")}, Policy: "rr", Class: "spelling-different-locks"},
+		{Threads: []c01issThread{th("manage", c01nmPuny), th("manage", c01nmPuny), th("obtain", c01nmPuny)}, Policy: "rr", Class: "generic"},
+		{Threads: []c01issThread{th("manage", c01nmUpper), th("manage", c01nmCanon)}, Policy: "seq", Pause: map[string]string{"0": "IssueEnd:"}, Class: "generic"},
+		{Threads: []c01issThread{th("obtain", c01nmCanon), th("obtain", c01nmCanon), th("manage", c01nmCanon)}, Policy: "seq", Pause: map[string]string{"0": "IssueEnd:"}, Class: "generic"},
 		// leader fails inside its turn, the waiter takes over
-		{Threads: []issThread{th("obtain", nmCanon), th("manage", nmCanon)}, Policy: "seq", Pause: map[string]string{"0": "IssueEnd:"},
-			Faults: map[string]int{"0:IssueEnd:": fErr}, Class: "generic"},
-		{Threads: []issThread{th("manage", nmCanon), th("manage", nmCanon)}, Seeds: []issSeed{{nmCanon, "due"}}, Policy: "seq", Pause: map[string]string{"0": "IssueEnd:"},
-			Faults: map[string]int{"0:IssueEnd:": fPanic}, Class: "generic"},
-		{Threads: []issThread{{Prog: "renew", Name: nmCanon, Async: true}, th("manage", nmCanon)}, Seeds: []issSeed{{nmCanon, "due"}}, Policy: "seq", Pause: map[string]string{"0": "IssueEnd:"},
-			Faults: map[string]int{"0:IssueEnd:": fErr}, Class: "generic"},
+		{Threads: []c01issThread{th("obtain", c01nmCanon), th("manage", c01nmCanon)}, Policy: "seq", Pause: map[string]string{"0": "IssueEnd:"},
+			Faults: map[string]int{"0:IssueEnd:": c01fErr}, Class: "generic"},
+		{Threads: []c01issThread{th("manage", c01nmCanon), th("manage", c01nmCanon)}, Seeds: []c01issSeed{{c01nmCanon, "due"}}, Policy: "seq", Pause: map[string]string{"0": "IssueEnd:"},
+			Faults: map[string]int{"0:IssueEnd:": c01fPanic}, Class: "generic"},
+		{Threads: []c01issThread{{Prog: "renew", Name: c01nmCanon, Async: true}, th("manage", c01nmCanon)}, Seeds: []c01issSeed{{c01nmCanon, "due"}}, Policy: "seq", Pause: map[string]string{"0": "IssueEnd:"},
+			Faults: map[string]int{"0:IssueEnd:": c01fErr}, Class: "generic"},
 	}
 }
 
-func c01Features(cs issCase, o *issObs) map[string]any {
-	return map[string]any{"class": cs.Class, "threads": len(cs.Threads), "programs": issProgKey(cs), "policy": cs.Policy,
+func c01Features(cs c01issCase, o *c01issObs) map[string]any {
+	return map[string]any{"class": cs.Class, "threads": len(cs.Threads), "programs": c01issProgKey(cs), "policy": cs.Policy,
 		"faults": len(cs.Faults), "steps": len(o.Steps), "issues": o.Issues, "overlap": o.Overlap, "save_fault": o.SaveFault}
 }
 
-func c01Emit(w *emit.Writer, cs issCase, o *issObs) {
+func c01Emit(w *emit.Writer, cs c01issCase, o *c01issObs) {
 	// the schedule actually taken is what a replay follows
 	rec := cs
 	rec.Policy, rec.Script = "script", o.Sched
 	nt := len(cs.Threads) >= 2 && o.Issues >= 1
-	key := fmt.Sprint(issProgKey(cs), cs.Seeds, o.Sched, cs.Faults)
+	key := fmt.Sprint(c01issProgKey(cs), cs.Seeds, o.Sched, cs.Faults)
 	if cs.Class == "generic" {
 		d := c01Features(cs, o)
 		d["clause"] = "all"
-		w.Add(emit.Case{Desc: d, In: rec, Obs: o, Wire: issWire(0, o), Nontrivial: nt, Key: key})
+		w.Add(emit.Case{Desc: d, In: rec, Obs: o, Wire: c01issWire(0, o), Nontrivial: nt, Key: key})
 	} else {
 		// a case that carries a known hazard is judged clause by clause so that a known finding can
 		// be matched narrowly (class + clause) and any other clause still raises an alarm
 		for m := 1; m <= 4; m++ {
 			d := c01Features(cs, o)
 			d["clause"] = c01Clauses[m]
-			w.Add(emit.Case{Desc: d, In: rec, Obs: o, Wire: issWire(m, o), Nontrivial: nt && m == 1, Key: key})
+			w.Add(emit.Case{Desc: d, In: rec, Obs: o, Wire: c01issWire(m, o), Nontrivial: nt && m == 1, Key: key})
 		}
 	}
 	w.Hist("class=" + cs.Class)
-	w.Hist("programs=" + issProgKey(cs))
+	w.Hist("programs=" + c01issProgKey(cs))
 	w.Hist(fmt.Sprintf("threads=%d", len(cs.Threads)))
 	w.Hist("policy=" + cs.Policy)
 	w.Hist(fmt.Sprintf("faults=%d", len(cs.Faults)))
@@ -87,15 +89,15 @@ func c01Emit(w *emit.Writer, cs issCase, o *issObs) {
 	w.Hist(fmt.Sprintf("steps=%d0s", len(o.Steps)/10))
 	for _, s := range o.Steps {
 		if s.Fault != 0 {
-			w.Hist("fault=" + faultNames[s.Fault] + "@" + strings.SplitN(s.Desc, " ", 2)[0])
+			w.Hist("fault=" + c01FaultNames[s.Fault] + "@" + strings.SplitN(s.Desc, " ", 2)[0])
 		}
 	}
 }
 
-func c01Random(r *rand.Rand, tier string) issCase {
-	cs := issCase{Class: "generic", SchedSeed: r.Int63()}
+func c01Random(r *rand.Rand, tier string) c01issCase {
+	cs := c01issCase{Class: "generic", SchedSeed: r.Int63()}
 	hazard := r.Intn(12)
-	names := []string{nmCanon}
+	names := []string{c01nmCanon}
 	spelling := false
 	switch hazard {
 	case 0:
@@ -105,7 +107,7 @@ func c01Random(r *rand.Rand, tier string) issCase {
 	case 2:
 		// non-canonical spellings of one name (no faults: the hazard is kept alone)
 		cs.Class, spelling = "spelling-different-locks", true
-		names = []string{nmUni, nmPuny, "BÜCHER.example", nmPuny}
+		names = []string{c01nmUni, c01nmPuny, "BÜCHER.example", c01nmPuny}
 	}
 	seedKinds := []string{"", "", "", "fresh", "fresh", "due", "due", "due", "keyonly", "nokey", "nometa", "mismatch"}
 	sk := seedKinds[r.Intn(len(seedKinds))]
@@ -113,19 +115,19 @@ func c01Random(r *rand.Rand, tier string) issCase {
 		sk = []string{"", "", "due"}[r.Intn(3)]
 	}
 	if sk != "" {
-		cs.Seeds = []issSeed{{names[len(names)-1], sk}}
+		cs.Seeds = []c01issSeed{{names[len(names)-1], sk}}
 	}
 	nth := 2 + r.Intn(2)
 	if tier == "thorough" {
 		nth = 2 + r.Intn(4)
 	}
 	for i := 0; i < nth; i++ {
-		t := issThread{Name: names[r.Intn(len(names))]}
+		t := c01issThread{Name: names[r.Intn(len(names))]}
 		switch p := r.Intn(10); {
 		case p < 4:
 			t.Prog = "manage"
 			if r.Intn(3) == 0 && !spelling {
-				t.Name = []string{nmUpper, " a.example", "A.EXAMPLE"}[r.Intn(3)]
+				t.Name = []string{c01nmUpper, " a.example", "A.EXAMPLE"}[r.Intn(3)]
 			}
 		case p < 7:
 			t.Prog, t.Async = "obtain", r.Intn(3) == 0
@@ -176,11 +178,11 @@ func runC01(tier string, seed int64, outdir string, replay string) error {
 		if err != nil {
 			return err
 		}
-		var cs issCase
+		var cs c01issCase
 		if err := json.Unmarshal(rc.In, &cs); err != nil {
 			return err
 		}
-		o, err := runIssCase(cs)
+		o, err := c01RunIssCase(cs)
 		if err != nil {
 			return err
 		}
@@ -189,20 +191,20 @@ func runC01(tier string, seed int64, outdir string, replay string) error {
 	}
 	if tier == "debug" {
 		for i, cs := range c01Corpus() {
-			o, err := runIssCase(cs)
+			o, err := c01RunIssCase(cs)
 			if err != nil {
 				return err
 			}
 			fmt.Fprintf(os.Stderr, "--- corpus %d class=%s results=%v seen=%v issues=%d overlap=%v final=%v held=%d rec=%d\n", i, cs.Class, o.Results, o.Seen, o.Issues, o.Overlap, o.Final, o.Held, o.Recorded)
 			for _, s := range o.Steps {
-				fmt.Fprintf(os.Stderr, "   t%d %-6s %-70s out=%d enc=%v\n", s.Tid, faultNames[s.Fault], s.Desc, s.Out, s.Op)
+				fmt.Fprintf(os.Stderr, "   t%d %-6s %-70s out=%d enc=%v\n", s.Tid, c01FaultNames[s.Fault], s.Desc, s.Out, s.Op)
 			}
 			c01Emit(w, cs, o)
 		}
 		return nil
 	}
 	for _, cs := range c01Corpus() {
-		o, err := runIssCase(cs)
+		o, err := c01RunIssCase(cs)
 		if err != nil {
 			return fmt.Errorf("corpus case %s: %v", cs.Class, err)
 		}
@@ -215,7 +217,7 @@ func runC01(tier string, seed int64, outdir string, replay string) error {
 	}
 	for i := 0; i < n; i++ {
 		cs := c01Random(r, tier)
-		o, err := runIssCase(cs)
+		o, err := c01RunIssCase(cs)
 		if err != nil {
 			b, _ := json.Marshal(cs)
 			return fmt.Errorf("random case %d: %v (%s)", i, err, b)
